@@ -491,6 +491,163 @@ theorem mprocess_index_points_at [Add K] [Sub K] [Zero K] [One K] (d m : Nat) (s
       simp only [hk, and_false, ↓reduceIte, hlt', Int.add_zero]
       omega
 
+/-- C03.1 measurement process, object → var → object on stacked vectors: a stacked vector of `m ≥ 1` HS matrices is
+reproduced from its variables exactly when the first row of its last HS is the implied one
+`e₀ − Σ (first rows of the other HS)` (the built-in constraint); and `len(var) = num_variables`. -/
+theorem mp_obj_roundtrip [Add K] [Sub K] [Zero K] [One K] (d m : Nat) (st : List K) (hd : 0 < d) (hm : 1 ≤ m)
+    (h : st.length = m * hsSize d) :
+    ∃ var, mpVarOfStacked d st true = some var ∧ (var.length : Int) = num_variables_qmpt d m true ∧
+      (mpStackedOfVar d var true = some st ↔
+        (st.drop (hsSize d * (m - 1))).take (d ^ 2) = mpLast d (m - 1) var) := by
+  have h1 : 1 ≤ d ^ 2 := Nat.pow_pos hd
+  have hH : 0 < hsSize d := by unfold hsSize; exact Nat.mul_pos h1 h1
+  have hnH : d ^ 2 ≤ hsSize d := by unfold hsSize; exact Nat.le_mul_of_pos_left _ h1
+  have hd0 : d ≠ 0 := by omega
+  obtain ⟨k, rfl⟩ : ∃ k, m = k + 1 := ⟨m - 1, by omega⟩
+  simp only [Nat.add_sub_cancel]
+  have hdiv : st.length / hsSize d = k + 1 := by rw [h]; exact Nat.mul_div_cancel _ hH
+  set p := hsSize d * k with hp
+  have hpl : p + hsSize d = st.length := by rw [h, hp, Nat.succ_mul, Nat.mul_comm]
+  set var := st.take p ++ st.drop (p + d ^ 2) with hvar
+  have htl : (st.take p).length = p := by rw [List.length_take]; omega
+  have hvl : var.length = p + (hsSize d - d ^ 2) := by
+    simp only [hvar, List.length_append, htl, List.length_drop]; omega
+  have hsub : (d ^ 2 - 1) * d ^ 2 + d ^ 2 = hsSize d := by
+    unfold hsSize
+    obtain ⟨j, hj⟩ : ∃ j, d ^ 2 = j + 1 := ⟨d ^ 2 - 1, by omega⟩
+    rw [hj]; simp; ring
+  have hvdiv : var.length / hsSize d = k := by
+    rw [hvl, hp, Nat.mul_add_div hH, Nat.div_eq_of_lt (by omega)]; rfl
+  refine ⟨var, ?_, ?_, ?_⟩
+  · simp [mpVarOfStacked, hd0, hdiv, hvar, hp]
+  · rw [nv_qmpt d (k + 1) var.length true hd hm]
+    simp only [↓reduceIte, Nat.add_sub_cancel]
+    rw [hvl, hp, Nat.mul_comm k]; omega
+  · have e1 : var.take p = st.take p := by rw [hvar, List.take_left' htl]
+    have e2 : var.drop p = st.drop (p + d ^ 2) := by rw [hvar, List.drop_left' htl]
+    have hsplit : st = st.take p ++ ((st.drop p).take (d ^ 2) ++ st.drop (p + d ^ 2)) := by
+      conv_lhs => rw [← List.take_append_drop p st, ← List.take_append_drop (d ^ 2) (st.drop p)]
+      rw [List.drop_drop]
+    simp only [mpStackedOfVar, hd0, ↓reduceIte, hvdiv, Nat.add_sub_cancel, Option.some.injEq, ← hp, e1, e2]
+    constructor
+    · intro heq
+      rw [List.append_assoc] at heq
+      conv_rhs at heq => rw [hsplit]
+      have h2 := List.append_cancel_left heq
+      have hlen : (mpLast d k var).length = ((st.drop p).take (d ^ 2)).length := by
+        have := congrArg List.length h2
+        simp only [List.length_append] at this
+        omega
+      exact ((List.append_inj h2 hlen).1).symm
+    · intro heq
+      rw [List.append_assoc, ← heq]
+      exact hsplit.symm
+
+/-- C03.1 the same on the list of HS matrices (`convert_hss_to_var` / `convert_var_to_hss`). -/
+theorem mp_hss_roundtrip [Add K] [Sub K] [Zero K] [One K] (d m : Nat) (hss : List (List K)) (hd : 0 < d)
+    (hm : 1 ≤ m) (hl : hss.length = m) (hr : ∀ r ∈ hss, r.length = hsSize d) :
+    ∃ var, varOfHss d hss true = some var ∧ (var.length : Int) = num_variables_qmpt d m true ∧
+      (hssOfVar d var true = some hss ↔
+        (hss.flatten.drop (hsSize d * (m - 1))).take (d ^ 2) = mpLast d (m - 1) var) := by
+  have hfl : hss.flatten.length = m * hsSize d := by rw [flatten_length_of _ hss hr, hl]
+  have hrows : rows (hsSize d) m hss.flatten = hss := by rw [← hl]; exact rows_of_flatten _ hss hr
+  obtain ⟨var, hv, hlen, hiff⟩ := mp_obj_roundtrip d m hss.flatten hd hm hfl
+  refine ⟨var, ?_, hlen, ?_⟩
+  · rw [← hrows, varOfHss_rows d m hss.flatten true hd hm hfl]; exact hv
+  · rw [← hiff]
+    have hd0 : d ≠ 0 := by omega
+    have h1 : 1 ≤ d ^ 2 := Nat.pow_pos hd
+    have hH : 0 < hsSize d := by unfold hsSize; exact Nat.mul_pos h1 h1
+    have hvl := (nv_qmpt d m var.length true hd hm).1 hlen
+    simp only [↓reduceIte] at hvl
+    have hlt : (d ^ 2 - 1) * d ^ 2 < hsSize d := by
+      unfold hsSize; exact Nat.mul_lt_mul_of_pos_right (by omega) (by omega)
+    have hdiv : var.length / hsSize d + 1 = m := by
+      rw [hvl, Nat.mul_comm (m - 1), Nat.mul_add_div hH, Nat.div_eq_of_lt hlt]; omega
+    cases hs : mpStackedOfVar d var true with
+    | none => simp [hssOfVar, hd0, hs]
+    | some st' =>
+      simp only [hssOfVar, hd0, ↓reduceIte, hs, Option.bind_eq_bind, Option.bind_some, hdiv, Option.some.injEq]
+      constructor
+      · intro h
+        obtain ⟨hl', hr'⟩ := reshape2_some _ _ _ _ h
+        rw [hr', rows_flatten _ _ _ hl']
+      · intro h
+        rw [h, reshape2_ok _ _ _ hfl, hrows]
+
+/-! ## `calc_gradient`: the exact statement that holds -/
+
+/-- C03.4 state: `calc_gradient(i)` is the derivative of `var ↦ vec` in coordinate `i`, both flags:
+`vec(var + t·e_i) = vec(var) + t·gradient`. -/
+theorem state_gradient_is_derivative [CommRing K] (d : Nat) (s t : K) (v : List K) (f : Bool) (i : Nat)
+    (hd : 0 < d) (hlen : (v.length : Int) = num_variables_qst d f) (g : List K)
+    (hg : gradState d i f = some g) :
+    vecOfVar s (perturb v i t) f = vadd (vecOfVar s v f) (lsmul t g) := by
+  have hl := (nv_qst d v.length f hd).1 hlen
+  have h1 : 1 ≤ d ^ 2 := Nat.pow_pos hd
+  unfold gradState convert_var_index_to_state_index natOf? at hg
+  cases f
+  · simp only [Bool.false_eq_true, ↓reduceIte] at hg hl
+    split at hg
+    · simp only [Option.bind_eq_bind, Option.bind_some, Int.toNat_natCast, Option.some.injEq] at hg
+      subst hg
+      simp [vecOfVar, perturb, hl]
+    · simp at hg
+  · simp only [↓reduceIte] at hg hl
+    split at hg
+    · simp only [Option.bind_eq_bind, Option.bind_some, Option.some.injEq] at hg
+      subst hg
+      have e : ((i : Int) + 1).toNat = i + 1 := by omega
+      have e2 : d ^ 2 = v.length + 1 := by omega
+      rw [e, e2, oneHot_succ]
+      simp [vecOfVar, perturb, vadd, lsmul]
+    · simp at hg
+
+/-- C03.4 gate: the stacked vector (flattened HS) of `var + t·e_i` is the stacked vector of `var` plus `t` times the
+one-hot vector at the flat position of the generated var→gate index — the vector `calc_gradient(i)` holds. -/
+theorem gate_gradient_is_derivative [CommRing K] (d : Nat) (t : K) (v st : List K) (f : Bool) (i : Nat)
+    (hd : 0 < d) (hst : gateStackedOfVar d v f = some st) :
+    gateStackedOfVar d (perturb v i t) f =
+      some (vadd st (lsmul t (oneHot st.length (if f then d ^ 2 + i else i)))) := by
+  have h1 : 1 ≤ d ^ 2 := Nat.pow_pos hd
+  have hd0 : d ≠ 0 := by omega
+  cases f
+  · simp [gateStackedOfVar, hd0] at hst; subst hst
+    simp [gateStackedOfVar, hd0, perturb]
+  · simp [gateStackedOfVar, hd0] at hst; subst hst
+    have he : (e0 (1 : K) (d ^ 2)).length = d ^ 2 := e0_length _ _ h1
+    simp only [gateStackedOfVar, hd0, ↓reduceIte, perturb, Option.some.injEq, List.length_append, he]
+    rw [oneHot_shift]
+    unfold lsmul
+    rw [List.map_append, vadd_append _ _ _ _ (by simp [he])]
+    congr 1
+    have := vadd_zero_smul (e0 (1 : K) (d ^ 2)) t
+    rw [he] at this
+    exact this.symm
+
+/-- C03.4 the model's gate gradient (what `calc_gradient(i).to_stacked_vector()` is compared with) is that one-hot vector. -/
+theorem gate_gradient_onehot [Zero K] [One K] (d i : Nat) (f : Bool) (hd : 0 < d)
+    (hi : (i : Int) < num_variables_qpt d f) :
+    (gradGate d i f : Option (List K)) = some (oneHot (hsSize d) (if f then d ^ 2 + i else i)) :=
+  gradGate_eq d i f hd hi
+
+/-- C03.4 what happens for the implied block (POVM, flag on; m-process alike): the stacked vector of `var + t·e_i` is
+`(var + t·e_i) ++ (implied element)`, i.e. on the free entries the derivative is the one-hot vector … -/
+theorem povm_gradient_free_block_partial [Add K] [Sub K] [Mul K] [Zero K] [One K] (d : Nat) (sq t : K)
+    (v st' : List K) (i : Nat) (hst : povmStackedOfVar d sq (perturb v i t) true = some st') :
+    ∃ last', st' = perturb v i t ++ last' :=
+  povm_stacked_prefix d sq (perturb v i t) st' true hst
+
+/-- … but the implied last element changes by `−t·e_{i mod d²}`, which the one-hot `calc_gradient` ignores:
+concrete witness (`d = 1`, two outcomes, `var = [5]`, `t = 1`): the stacked vector moves from `[5, −4]` to `[6, −5]`,
+`vec(var) + gradient = [6, −4]`. -/
+theorem povm_gradient_is_not_derivative_on_implied_block :
+    povmStackedOfVar 1 (1 : Rat) [5] true = some [5, -4] ∧
+    povmStackedOfVar 1 (1 : Rat) (perturb [5] 0 1) true = some [6, -5] ∧
+    (gradPovm 1 2 0 true : Option (List Rat)) = some [1, 0] ∧
+    vadd [5, -4] (lsmul (1 : Rat) [1, 0]) = [6, -4] := by
+  decide +kernel
+
 /-! ## clause "across a whole set of operations" -/
 
 /-- C03.5 SetQOperations: local (mode, operation k, local index j) ↦ total index lands in range and
@@ -576,6 +733,7 @@ example : ((List.replicate 12 (1 : Rat)).length : Int) = num_variables_qpt 2 tru
 example : ((List.replicate 8 (1 : Rat)).length : Int) = num_variables_povmt 2 3 true := by decide
 example : ((List.replicate 28 (1 : Rat)).length : Int) = num_variables_qmpt 2 2 true := by decide
 example : vecsOfVar 1 (1 : Rat) [5, 7] true = some [[5], [7], [-11]] := by decide +kernel
+example : resolveFlag true (some false) = false ∧ resolveFlag true none = true := by decide
 example : totalFromLocal ⟨[3, 3], [12], [4, 8], [28]⟩ 2 1 5 = some 27 := by decide
 example : localFromTotal ⟨[3, 3], [12], [4, 8], [28]⟩ 27 = some (2, 1, 5) := by decide
 
